@@ -27,7 +27,7 @@ for item in sys.argv[3:]:
     wt = "/tmp/seedrun/w%s" % worker
     shutil.rmtree(wt, ignore_errors=True)
     subprocess.check_call(["rsync", "-a", "--exclude", "target", "--exclude", ".git", "/repo/", wt + "/"])
-    prop_id = ("C" + P[1:]) if P.startswith("S") else P
+    prop_id = ("C" + P[1:]) if P[0] in "ST" else P
     rec = dict(seed=item, property=prop_id)
     t0 = time.time()
     rc, out = sh("patch -p1 < %s/patch.diff" % sd, wt)
@@ -50,14 +50,14 @@ for item in sys.argv[3:]:
     os.remove(os.path.join(wt, "tests", "seed_demo.rs"))
     sh("patch -p1 < %s/patch.diff" % sd, wt)
     # the checks
-    cenv = dict(os.environ, VERIF_REPO=wt, VERIF_EVIDENCE_DIR="/tmp/seedrun/ev%s" % worker, VERIF_REPLAY_DIR="/tmp/seedrun/rp%s" % worker, VERIF_NO_REPLAY="1")
+    cenv = dict(os.environ, VERIF_REPO=wt, VERIF_EVIDENCE_DIR="/tmp/seedrun/ev%s" % worker, VERIF_REPLAY_DIR="/tmp/seedrun/rp%s" % worker, **({} if os.environ.get("SEEDTEST_REPLAY") == "1" else {"VERIF_NO_REPLAY": "1"}))
     props = [prop_id]
     rec["checks"] = {}
     for q in props:
         try:
             p = subprocess.run(["./check", q, "quick"], cwd=VERIF, capture_output=True, text=True, timeout=2400, env=cenv)
             viol = re.findall(r"VIOLATION property=\S+ replay=\S+ obligation=(\S+)", p.stdout)
-            rec["checks"][q] = dict(rc=p.returncode, obligations=viol, undecided=[l[:200] for l in p.stderr.split("\n") if l.startswith("UNDECIDED")][:3])
+            rec["checks"][q] = dict(rc=p.returncode, obligations=viol, witnessed=[o for o in viol if ("obligation=%s no-failing-input-found" % o) not in p.stdout], undecided=[l[:200] for l in p.stderr.split("\n") if l.startswith("UNDECIDED")][:3])
         except subprocess.TimeoutExpired:
             rec["checks"][q] = dict(rc="timeout")
     rec["seconds"] = round(time.time() - t0)
